@@ -15,6 +15,7 @@ from .. import lib_fm_signature as S
 # (features, share): plain trees, trees passing a parametrised variable twice, trees whose call sites differ
 MIX = [((), 0.5), (('entry1',), 0.14), (('dup',), 0.18), (('mixed',), 0.18)]
 BASE = ('select', 'while', 'exitcycle', 'section', 'twod')
+CROSS_MIN = (8, 60)       # programs of the `cross` stratum per quick / thorough run
 
 
 def gen_cases(ctx, n):
@@ -24,6 +25,10 @@ def gen_cases(ctx, n):
             cases.append(S.gen_param_case(ctx.rng, BASE + feats, ninputs=4 if ctx.quick else 6))
     for i in range(max(4, round(n * 0.2))):
         cases.append(S.gen_consts_case(ctx.rng, BASE + (('call', 'fcall', 'assoc') if i % 2 else ('call', 'fcall')), ninputs=3))
+    # stratum `cross`: three levels whose size / flag dummies are spelled like OTHER top-level dic2p keys (crossing and
+    # permuted names between the levels, pairwise distinct values): the constant must follow the binding, not the name
+    for _ in range(CROSS_MIN[0] if ctx.quick else CROSS_MIN[1]):
+        cases.append(S.gen_param_case(ctx.rng, BASE + ('cross',), ninputs=4 if ctx.quick else 6))
     return cases
 
 
@@ -48,6 +53,13 @@ def run(ctx):
         r = next((r for r in results if 'newtext' in r and S.param_tags(cases[r['idx']][0]) == want), None)
         if r:
             ctx.sample({'class': want, 'param': cases[r['idx']][0]['param'], 'program': r['text'], 'transformed': r['newtext'][:3500]})
+    # vacuity guard for the `cross` stratum: programs whose matching inputs were judged (pre-flight legal)
+    cross = [idx for idx, (prog, inputs) in enumerate(cases) if 'cross' in S.param_tags(prog).split('+')]
+    cross_judged = [idx for idx in cross if any(k < (len(cases[idx][1]) + 1) // 2 for k in legal.get(idx, []))]
+    ctx.cover['cross_programs'] = len(cross)
+    ctx.cover['cross_programs_with_judged_matching_input'] = len(cross_judged)
+    if not ctx.replay and len(cross_judged) < (6 if ctx.quick else 45):
+        raise F.MachineryError(f'vacuity: only {len(cross_judged)} of {len(cross)} crossing-name call trees were judged on a matching input')
     if not ctx.replay and (ctx.cover.get('param_judged_matching', 0) == 0 or ctx.cover.get('param_judged_abort', 0) == 0):
         raise F.MachineryError(f'vacuity: matching={ctx.cover.get("param_judged_matching")} abort={ctx.cover.get("param_judged_abort")}')
     ctx.assumptions += [
@@ -56,4 +68,5 @@ def run(ctx):
         'the guard is observed as: exit status /= 0 and the guard message on stdout (default PRINT + STOP 1) or stderr (callback: ERROR STOP "msg"); any other non-zero exit is a run-time failure of the transformed code (violation)',
         'entry_points=(lev1,): the kernel calls lev1 unconditionally with its own nlev, mode, so "matching input" is decided on the kernel inputs',
         'transformed builds run with -fcheck=bounds,do',
+        'stratum cross: lev1 / lev2 dummies spelled like other top-level keys (mode<->nlev, n, m), every re-used name is a dic2p key, values pairwise distinct, all call sites plain, one unconditional call per level',
     ]
